@@ -57,14 +57,26 @@ def h_plumbing(h):
     shape = {"power3": power3, "linear2": linear2}[h.cfg["shape"]]
     names = ["a", "b", "c"] if h.cfg["shape"] == "power3" else ["a", "b"]
     bk = h.cfg["bounds"]
-    bounds = None if bk == "absent" else [BOUND_KINDS[k] for k in bk.split("/")]
+    bounds = None
     weights = (lambda x, y: y) if h.cfg["weights"] == "y" else ((lambda x, y: 1 + x * x) if h.cfg["weights"] == "fx" else None)
     cons = h.cfg["constraints"]
     c0 = {"type": "ineq", "fun": lambda z: z[0] - 3.0}
     c1 = {"type": "ineq", "fun": lambda z: 5.0 - z[1]}
     constraints = {"none": None, "dict": c0, "list": [c0, c1]}[cons]
+    p0 = [h.real(f"p0_{n}", -2.5, 3.0) for n in names]
+    if bk != "absent":
+        # finite bounds are symbolic (any value that keeps the start feasible - zero and negative ones included)
+        bounds = []
+        for i, k in enumerate(bk.split("/")):
+            lo = hi = None
+            if k in ("lower", "both"):
+                lo = h.real(f"lo{i}", -5.0, 3.0)
+                h.assume(lo <= p0[i] - 0.05)
+            if k in ("upper", "both"):
+                hi = h.real(f"hi{i}", -3.0, 9.0)
+                h.assume(hi >= p0[i] + 0.05)
+            bounds.append((lo, hi))
     d = DF(shape, bounds=bounds, constraints=constraints, weights=weights)
-    p0 = [h.real(f"p0_{n}", 0.2, 3.0) for n in names]
     d.parameters = dict(zip(names, p0))
     x = h.reals("x", 3, 0.5, 6.0)
     y = h.reals("y", 3, 0.5, 6.0)
@@ -88,8 +100,16 @@ def h_plumbing(h):
             lo, hi = c["bounds"]
             h.check(len(lo) == len(names) and len(hi) == len(names), "one-bound-pair-per-parameter")
             for i, (l, u) in enumerate(bounds):
-                h.check(lo[i] == (-np.inf if l is None else l), "lower-bounds-in-parameter-order", f"{lo}")
-                h.check(hi[i] == (np.inf if u is None else u), "upper-bounds-in-parameter-order", f"{hi}")
+                if l is None:
+                    h.check(not isinstance(lo[i], (sym.SR,)) and np.isneginf(float(lo[i])), "lower-bounds-in-parameter-order", f"{lo}")
+                else:
+                    h.close(lo[i], l, "lower-bounds-in-parameter-order")
+                if u is None:
+                    h.check(not isinstance(hi[i], (sym.SR,)) and np.isposinf(float(hi[i])), "upper-bounds-in-parameter-order", f"{hi}")
+                else:
+                    h.check(not (not isinstance(hi[i], (sym.SR,)) and np.isinf(float(hi[i]))), "upper-bounds-in-parameter-order",
+                            f"finite upper bound replaced by {hi[i]}")
+                    h.close(hi[i], u, "upper-bounds-in-parameter-order")
         if weights is None:
             h.check(c["sigma"] is None, "no-weights-no-sigma")
         else:
@@ -99,7 +119,19 @@ def h_plumbing(h):
         h.check(c["kind"] == "minimize", "constrained-fit-uses-minimize")
         h.check(c["method"] == "SLSQP", "slsqp")
         h.close(list(c["x0"]), p0, "start-values-are-current-parameters-in-order")
-        h.check(c["bounds"] == bounds, "declared-bounds-forwarded", f"{c['bounds']}")
+        gb = c["bounds"]
+        if bounds is None:
+            h.check(gb is None, "declared-bounds-forwarded", f"{gb}")
+        else:
+            h.check(gb is not None and len(gb) == len(bounds), "declared-bounds-forwarded", f"{gb}")
+            for (gl, gu), (l, u) in zip(gb or [], bounds):
+                for g_, w_ in ((gl, l), (gu, u)):
+                    if w_ is None:
+                        h.check(g_ is None, "declared-bounds-forwarded", f"{gb}")
+                    else:
+                        h.check(g_ is not None, "declared-bounds-forwarded", f"{gb}")
+                        if g_ is not None:
+                            h.close(g_, w_, "declared-bounds-forwarded")
         got = c["constraints"]
         want = constraints
         same = (got is want) or (isinstance(got, (list, tuple)) and isinstance(want, list) and len(got) == len(want)
